@@ -340,7 +340,7 @@ class Gen:
         r = self.r
         obs = [("index_valid",), ("iter",)]
         k = r.choice(["ooo_batch", "carriers", "bad_batch", "stale_handle", "torn_update", "handle_times", "linebreaks", "zones",
-                      "remove_first", "ooo_then_remove", "nested_not", "reset_then_time", "nan_fields", "epoch", "sparse_write", "sparse_write", "future_untimed", "range_ends", "noop_compose", "substring_names", "same_size", "one_us_late", "mixed_quoting", "far_sorted", "getter_memo", "handle_sorted", "odd_strings", "shared_maps", "hash_twins", "same_count", "redate", "fold_twins", "big_ties", "handle_unset", "same_row_twice", "or_not", "noop_match", "minute_marks", "none_name", "merge_rename", "tiny_float_change", "big_ints", "redate_remove", "underscore_keys"])
+                      "remove_first", "ooo_then_remove", "nested_not", "reset_then_time", "nan_fields", "epoch", "sparse_write", "sparse_write", "future_untimed", "range_ends", "noop_compose", "substring_names", "same_size", "one_us_late", "mixed_quoting", "far_sorted", "getter_memo", "handle_sorted", "odd_strings", "shared_maps", "hash_twins", "same_count", "redate", "fold_twins", "big_ties", "handle_unset", "same_row_twice", "or_not", "noop_match", "minute_marks", "none_name", "merge_rename", "tiny_float_change", "big_ints", "redate_remove", "underscore_keys", "buffered_handle"])
         pref = self.profile.get("scenario_pref")
         if pref and r.random() < 0.5:
             k = r.choice(pref)
@@ -490,7 +490,14 @@ class Gen:
             pts[r.randrange(1, len(pts))]["fields"]["a"] = 2          # fields callable 3 raises when a == 2
             torn = r.choice([{"fields": ("call", 3), "tags": ("static", {"b": "y"})}, {"fields": ("call", 3), "unset_tags": ["a", "k"]},
                              {"fields": ("call", 3), "unset_tags": ["b"], "time": ("static", self.time())},
-                             {"fields": ("call", 3), "unset_fields": ["b"], "meas": ("static", "m3")}])
+                             {"fields": ("call", 3), "unset_fields": ["b"], "meas": ("static", "m3")},
+                             # callables that EDIT the mapping they are handed (and return it) on the points before the one that fails
+                             {"tags": ("call", 6), "fields": ("call", 3)}, {"tags": ("call", 6), "fields": ("call", 3)},
+                             {"fields": ("call", 6), "tags": ("call", 3)}])
+            if torn.get("tags") == ("call", 3):
+                for p in pts:
+                    p["tags"].pop("bad", None)
+                pts[r.randrange(1, len(pts))]["tags"]["bad"] = "1"          # tags callable 3 raises on this one
             for p in pts:
                 p["tags"].setdefault("k", "x")
                 p["fields"].setdefault("b", 1)
@@ -902,6 +909,18 @@ class Gen:
             ops += [("count", ("and", tq, nf), None), r.choice([("remove", ("and", tq, nf), None), ("remove", ("and", nf, tq), None), ("remove", ("S", "fields", [("k", "f_a_b")], ("cmp", "<=", ("n", 1))), None)])] + self.file_obs() + obs
             ops += [("update", ("not", ("S", "fields", [("k", "f_a_b")], ("cmp", ">", ("n", 3)))), {"tags": ("static", {"seen_it": "1"})}, None)] + self.file_obs() + obs
             ops += [(("reopen", r.random() < 0.5) if csv else ("reindex",)), ("all", False), ("get_tag_keys", None), ("get_field_keys", None)]
+        elif k == "buffered_handle":
+            # after every insert the FIRST thing asked is a read through a Measurement handle (or the length) - before any read through the database has
+            # touched storage: with flush_on_insert=False the new row may still sit in the writer's buffer, and must be seen all the same
+            pts = self.points_batch(r.choice([4, 5, 6]), in_order=True)
+            for i, p in enumerate(pts):
+                p["meas"] = ["m1", "m2"][i % 2]
+            first = lambda name: r.choice([("handle", name, ("all", False)), ("handle", name, ("iter",)), ("handle", name, ("len",)),
+                                           ("handle", name, ("count", ("noop", "tags"))), ("len",), ("handle", name, ("all", True))])
+            ops += [("insert", pts[:2], None, "multiple"), first("m1"), first("m2")]
+            for p in pts[2:]:
+                ops += [r.choice([("insert", [p], None), ("handle", p["meas"], ("insert", [p]))]), first(p["meas"]), first(p["meas"])]
+            ops += obs + [("handle", "m1", ("all", False)), ("handle", "m2", ("iter",))]
         elif k == "mixed_quoting":
             # a file written over several sessions with different (read-compatible) quoting policies - the driver reopens with QUOTE_ALL every other
             # time: then the NEWEST rows are removed through the index, the rest re-serialised
